@@ -62,5 +62,147 @@ Theorem C12_kernels_value_independent : forall s kx ky,
 Proof. intros. split; reflexivity. Qed.
 Print Assumptions C12_kernels_value_independent.
 
+(* ================= the call: argument binding and substitution (Model/Call.v, Theory/Call.v) =================
+   A symbol is its name (list of code points), a symbolic coefficient an expression tree over names, values live
+   in any structure [ops S] with the image [inj] of the python integers; [call] follows MultiVector.__call__ /
+   _lambdify_mv statement by statement, exceptions included. *)
+From Coq Require Import Permutation Sorted.
+From KV Require Import Model.Call Theory.Call.
+
+(* "name order" is well defined: python's string order is a strict total order on names *)
+Theorem C12_name_order_strict_total : forall a b c : sname,
+  str_ltb a a = false /\
+  (str_ltb a b = true -> str_ltb b c = true -> str_ltb a c = true) /\
+  ((str_lt a b /\ a <> b /\ ~ str_lt b a) \/ (~ str_lt a b /\ a = b /\ ~ str_lt b a) \/ (~ str_lt a b /\ a <> b /\ str_lt b a)).
+Proof. exact (fun a b c => conj (str_ltb_irrefl a) (conj (str_ltb_trans a b c) (str_ltb_trichotomy a b))). Qed.
+Print Assumptions C12_name_order_strict_total.
+
+(* free_symbols is the duplicate-free set of the names occurring in some coefficient *)
+Theorem C12_free_symbols : forall (x : mv sexpr),
+  NoDup (free_symbols x) /\ forall n, In n (free_symbols x) <-> exists kv, In kv x /\ occurs n (snd kv).
+Proof. exact (fun x => conj (free_symbols_NoDup x) (free_symbols_In x)). Qed.
+Print Assumptions C12_free_symbols.
+
+(* sorted(free_symbols, key=name): strictly increasing, a permutation of the set, and the only such list
+   (whatever the iteration order of the python set) *)
+Theorem C12_sorted_names : forall (x : mv sexpr),
+  StronglySorted str_lt (sorted_names (free_symbols x)) /\
+  Permutation (sorted_names (free_symbols x)) (free_symbols x) /\
+  (forall l, StronglySorted str_lt l -> (forall n, In n l <-> In n (free_symbols x)) -> l = sorted_names (free_symbols x)).
+Proof.
+  exact (fun x => conj (sorted_names_sorted _) (conj (sorted_names_perm _ (free_symbols_NoDup x))
+                                                     (fun l => sorted_names_unique (free_symbols x) l))).
+Qed.
+Print Assumptions C12_sorted_names.
+
+(* positional arguments: the i-th argument is bound to the i-th free symbol in name order; the result has the
+   keys of the multivector in the same order and, per key, the value of the coefficient under ANY valuation
+   with that binding *)
+Theorem C12_call_positional : forall (S : Type) (OS : ops S) (inj : Z -> S) (x : mv sexpr) (args : list S) (rho : sname -> S),
+  let names := sorted_names (free_symbols x) in
+  (names = [] \/ length args = length names) ->
+  (forall i n a, nth_error names i = Some n -> nth_error args i = Some a -> rho n = a) ->
+  call_positional OS inj x args = Ok (map_mv (evalT OS inj rho) x).
+Proof. exact (fun S OS inj => call_positional_spec OS inj). Qed.
+Print Assumptions C12_call_positional.
+
+(* ... it raises exactly when there are free symbols and their number is not the number of arguments: ValueError *)
+Theorem C12_call_positional_raises_iff : forall (S : Type) (OS : ops S) (inj : Z -> S) (x : mv sexpr) (args : list S) e,
+  call_positional OS inj x args = Err e <->
+  free_symbols x <> [] /\ length args <> length (free_symbols x) /\ e = EValue.
+Proof. exact (fun S OS inj => call_positional_raises_iff OS inj). Qed.
+Print Assumptions C12_call_positional_raises_iff.
+
+(* keyword arguments are bound by name *)
+Theorem C12_call_keywords : forall (S : Type) (OS : ops S) (inj : Z -> S) (x : mv sexpr) (kw : list (sname * S)) (rho : sname -> S),
+  (forall n, In n (free_symbols x) -> kw_get n kw = Some (rho n)) ->
+  call_keywords OS inj x kw = Ok (map_mv (evalT OS inj rho) x).
+Proof. exact (fun S OS inj => call_keywords_spec OS inj). Qed.
+Print Assumptions C12_call_keywords.
+
+(* ... in whatever order the keywords are passed (value and exception alike) *)
+Theorem C12_call_keywords_order_irrelevant : forall (S : Type) (OS : ops S) (inj : Z -> S) (x : mv sexpr) (kw kw' : list (sname * S)),
+  NoDup (map fst kw) -> Permutation kw kw' -> call_keywords OS inj x kw = call_keywords OS inj x kw'.
+Proof. exact (fun S OS inj => call_keywords_order_irrelevant OS inj). Qed.
+Print Assumptions C12_call_keywords_order_irrelevant.
+
+(* ... keywords {name_i := a_i} = positional (a_1, ..., a_n) *)
+Theorem C12_call_keywords_eq_positional : forall (S : Type) (OS : ops S) (inj : Z -> S) (x : mv sexpr) (args : list S),
+  let names := sorted_names (free_symbols x) in
+  (names = [] \/ length args = length names) ->
+  call_keywords OS inj x (combine names args) = call_positional OS inj x args.
+Proof. exact (fun S OS inj => call_keywords_eq_positional OS inj). Qed.
+Print Assumptions C12_call_keywords_eq_positional.
+
+(* every exception of __call__: both kinds of arguments (Exception); free symbols and a wrong number of
+   positional arguments, zero included (ValueError); free symbols and keywords that leave some free symbol
+   without a value (KeyError).  A keyword that names no free symbol is otherwise ignored. *)
+Theorem C12_call_raises_iff : forall (S : Type) (OS : ops S) (inj : Z -> S) (x : mv sexpr) (args : list S) (kw : list (sname * S)) e,
+  call OS inj x args kw = Err e <->
+  (args <> [] /\ kw <> [] /\ e = EOther) \/
+  (kw = [] /\ free_symbols x <> [] /\ length args <> length (free_symbols x) /\ e = EValue) \/
+  (args = [] /\ kw <> [] /\ free_symbols x <> [] /\ e = EKey /\ exists n, In n (free_symbols x) /\ kw_get n kw = None).
+Proof. exact (fun S OS inj => call_raises_iff OS inj). Qed.
+Print Assumptions C12_call_raises_iff.
+
+Theorem C12_call_keywords_extra_ignored : forall (S : Type) (OS : ops S) (inj : Z -> S) (x : mv sexpr) (kw kw' : list (sname * S)),
+  (kw = [] <-> kw' = []) -> (forall n, In n (free_symbols x) -> kw_get n kw = kw_get n kw') ->
+  call_keywords OS inj x kw = call_keywords OS inj x kw'.
+Proof. exact (fun S OS inj => call_keywords_extra_ignored OS inj). Qed.
+Print Assumptions C12_call_keywords_extra_ignored.
+
+(* the model operators do not invent symbols ... *)
+Theorem C12_operators_no_new_symbols : forall A (x y : mv sexpr) n,
+  (forall o, In n (free_symbols (run2 o A sexpr Eops x y)) -> In n (free_symbols x) \/ In n (free_symbols y)) /\
+  (forall o, In n (free_symbols (run1 o A sexpr Eops x)) -> In n (free_symbols x)).
+Proof.
+  exact (fun A x y n => conj (fun o => natural2_no_new_symbols _ (run2_natural o A) x y n)
+                             (fun o => natural1_no_new_symbols _ (run1_natural o A) x n)).
+Qed.
+Print Assumptions C12_operators_no_new_symbols.
+
+(* ... and CALLING THE RESULT of a model operator on symbolic operands = the operator on the called operands
+   (run2: gp op ip lc rc sp cp acp rp add sub sw proj; run1: neg reverse involute conjugate hodge unhodge normsq),
+   for keywords binding the free symbols of the operands, literally: same keys, same order *)
+Theorem C12_call_commutes : forall (S : Type) (OS : ops S) (inj : Z -> S), inj 0 = o_zero OS -> inj 1 = o_one OS ->
+  forall A (x y : mv sexpr) (kw : list (sname * S)) (rho : sname -> S),
+  (forall n, In n (free_symbols x) \/ In n (free_symbols y) -> kw_get n kw = Some (rho n)) ->
+  call_keywords OS inj x kw = Ok (map_mv (evalT OS inj rho) x) /\
+  call_keywords OS inj y kw = Ok (map_mv (evalT OS inj rho) y) /\
+  (forall o, call_keywords OS inj (run2 o A sexpr Eops x y) kw
+             = Ok (run2 o A S OS (map_mv (evalT OS inj rho) x) (map_mv (evalT OS inj rho) y))) /\
+  (forall o, call_keywords OS inj (run1 o A sexpr Eops x) kw = Ok (run1 o A S OS (map_mv (evalT OS inj rho) x))).
+Proof.
+  exact (fun S OS inj i0 i1 A x y kw rho Hb =>
+    conj (proj1 (proj2 (call_commutes2 OS inj i0 i1 _ (run2_natural Bgp A) x y kw rho Hb)))
+   (conj (proj2 (proj2 (call_commutes2 OS inj i0 i1 _ (run2_natural Bgp A) x y kw rho Hb)))
+   (conj (fun o => proj1 (call_commutes2 OS inj i0 i1 _ (run2_natural o A) x y kw rho Hb))
+         (fun o => proj1 (call_commutes1 OS inj i0 i1 _ (run1_natural o A) x kw rho (fun n Hn => Hb n (or_introl Hn))))))).
+Qed.
+Print Assumptions C12_call_commutes.
+
+(* positional: the arguments follow the free symbols of the RESULT in name order; a symbol of the operands
+   that cancelled in the result may take any value *)
+Theorem C12_call_commutes_positional : forall (S : Type) (OS : ops S) (inj : Z -> S), inj 0 = o_zero OS -> inj 1 = o_one OS ->
+  forall A o (x y : mv sexpr) (args : list S) (rho : sname -> S),
+  let names := sorted_names (free_symbols (run2 o A sexpr Eops x y)) in
+  (names = [] \/ length args = length names) ->
+  (forall i n a, nth_error names i = Some n -> nth_error args i = Some a -> rho n = a) ->
+  call_positional OS inj (run2 o A sexpr Eops x y) args
+  = Ok (run2 o A S OS (map_mv (evalT OS inj rho) x) (map_mv (evalT OS inj rho) y)).
+Proof. exact (fun S OS inj i0 i1 A o => call_commutes2_positional OS inj i0 i1 _ (run2_natural o A)). Qed.
+Print Assumptions C12_call_commutes_positional.
+
+Theorem C12_call_commutes_positional_unary : forall (S : Type) (OS : ops S) (inj : Z -> S), inj 0 = o_zero OS -> inj 1 = o_one OS ->
+  forall A o (x : mv sexpr) (args : list S) (rho : sname -> S),
+  let names := sorted_names (free_symbols (run1 o A sexpr Eops x)) in
+  (names = [] \/ length args = length names) ->
+  (forall i n a, nth_error names i = Some n -> nth_error args i = Some a -> rho n = a) ->
+  call_positional OS inj (run1 o A sexpr Eops x) args = Ok (run1 o A S OS (map_mv (evalT OS inj rho) x)).
+Proof. exact (fun S OS inj i0 i1 A o => call_commutes1_positional OS inj i0 i1 _ (run1_natural o A)). Qed.
+Print Assumptions C12_call_commutes_positional_unary.
+
 (* the polynomial class the symbolic generators run on: its translated kernels and pinned methods (see Props/C17.v) *)
 From KV Require Bridge.Poly Bridge.Pins_C17.
+(* the functions Model/Call.v follows statement by statement *)
+From KV Require Bridge.Pins_C12.
